@@ -601,8 +601,14 @@ class ProbabilisticTensorDictModule(TensorDictModuleBase):
 
         dist = self.get_dist(tensordict)
         if _requires_sample:
-            out_tensors = self._dist_sample(dist, interaction_type=interaction_type())
-            if self.num_samples is not None:
+            it = interaction_type()
+            if it is None:
+                it = self.default_interaction_type
+            out_tensors = self._dist_sample(dist, interaction_type=it)
+            if self.num_samples is not None and it is InteractionType.RANDOM:
+                # num_samples draws were made: the output gets the sample dimensions. (A statistic of the
+                # distribution -- mode, mean, ... -- has the batch shape of the input: expanding the
+                # output for it made the update below fail with a batch-size mismatch.)
                 # TODO: capture contiguous error here
                 tensordict_out = tensordict_out.expand(
                     self.num_samples + tensordict_out.shape
@@ -1211,8 +1217,14 @@ class ProbabilisticTensorDictSequential(TensorDictSequential):
                     # keep the samples that are there
                     pass
                 elif i < len(self.module) - 1:
-                    sample = tdm._dist_sample(dist, interaction_type=interaction_type())
-                    if tdm.num_samples not in ((), None):
+                    it = interaction_type()
+                    if it is None:
+                        it = tdm.default_interaction_type
+                    sample = tdm._dist_sample(dist, interaction_type=it)
+                    if (
+                        tdm.num_samples not in ((), None)
+                        and it is InteractionType.RANDOM
+                    ):
                         td_copy = td_copy.expand(tdm.num_samples + td_copy.shape)
                     if isinstance(tdm, ProbabilisticTensorDictModule):
                         if isinstance(sample, torch.Tensor):
